@@ -45,111 +45,7 @@ type target struct {
 	Ret    string // Gallina return type
 }
 
-var targets = []target{
-	{File: "Names", Recv: "CandidateType", Func: "String", Coq: "CandidateType_String", Ret: "string",
-		Params: []param{{"c", "Z"}}, Access: map[string]string{"c": "c"}},
-	{File: "Names", Recv: "NetworkType", Func: "String", Coq: "NetworkType_String", Ret: "string",
-		Params: []param{{"t", "Z"}}, Access: map[string]string{"t": "t", "ErrUnknownType.Error()": "\"Unknown\"%string"}},
-	{File: "Names", Recv: "NetworkType", Func: "NetworkShort", Coq: "NetworkType_NetworkShort", Ret: "string",
-		Params: []param{{"t", "Z"}}, Access: map[string]string{"t": "t", "ErrUnknownType.Error()": "\"Unknown\"%string"}},
-	{File: "Names", Recv: "NetworkType", Func: "IsUDP", Coq: "NetworkType_IsUDP", Ret: "bool",
-		Params: []param{{"t", "Z"}}, Access: map[string]string{"t": "t"}},
-	{File: "Names", Recv: "NetworkType", Func: "IsReliable", Coq: "NetworkType_IsReliable", Ret: "bool",
-		Params: []param{{"t", "Z"}}, Access: map[string]string{"t": "t"}},
-	{File: "Names", Recv: "NetworkType", Func: "IsIPv4", Coq: "NetworkType_IsIPv4", Ret: "bool",
-		Params: []param{{"t", "Z"}}, Access: map[string]string{"t": "t"}},
-	{File: "Names", Recv: "NetworkType", Func: "IsIPv6", Coq: "NetworkType_IsIPv6", Ret: "bool",
-		Params: []param{{"t", "Z"}}, Access: map[string]string{"t": "t"}},
-	{File: "Names", Recv: "TCPType", Func: "String", Coq: "TCPType_String", Ret: "string",
-		Params: []param{{"t", "Z"}}, Access: map[string]string{"t": "t", "ErrUnknownType.Error()": "\"Unknown\"%string"}},
-	{File: "Prio", Recv: "CandidateType", Func: "Preference", Coq: "CandidateType_Preference", Ret: "Z",
-		Params: []param{{"c", "Z"}}, Access: map[string]string{"c": "c"}},
-	{File: "Prio", Recv: "NetworkType", Func: "IsTCP", Coq: "NetworkType_IsTCP", Ret: "bool",
-		Params: []param{{"t", "Z"}}, Access: map[string]string{"t": "t"}},
-	{File: "Prio", Recv: "", Func: "relayProtocolPreference", Coq: "relayProtocolPreference", Ret: "Z",
-		Params: []param{{"relayProtocol", "string"}}, Access: map[string]string{"relayProtocol": "relayProtocol"}},
-	{File: "Prio", Recv: "candidateBase", Func: "LocalPreference", Coq: "LocalPreference", Ret: "Z",
-		Params: []param{{"ty", "Z"}, {"nt", "Z"}, {"tcp", "Z"}, {"relayLocalPreference", "Z"}},
-		Access: map[string]string{
-			"c.candidateType":          "ty",
-			"c.Type()":                 "ty",
-			"c.NetworkType().IsTCP()":  "(NetworkType_IsTCP nt)",
-			"c.tcpType":                "tcp",
-			"c.relayLocalPreference":   "relayLocalPreference",
-		}},
-	{File: "Prio", Recv: "candidateBase", Func: "TypePreference", Coq: "TypePreference", Ret: "Z",
-		Params: []param{{"ty", "Z"}, {"nt", "Z"}, {"has_agent", "bool"}, {"agent_offset", "Z"}},
-		Access: map[string]string{
-			"c.Type().Preference()":       "(CandidateType_Preference ty)",
-			"c.NetworkType().IsTCP()":     "(NetworkType_IsTCP nt)",
-			"c.agent() != nil":            "has_agent",
-			"c.agent().tcpPriorityOffset": "agent_offset",
-		}},
-	{File: "Prio", Recv: "candidateBase", Func: "Priority", Coq: "Priority", Ret: "Z",
-		Params: []param{{"priorityOverride", "Z"}, {"typePreference", "Z"}, {"localPreference", "Z"}, {"component", "Z"}},
-		Access: map[string]string{
-			"c.priorityOverride":  "priorityOverride",
-			"c.TypePreference()":  "typePreference",
-			"c.LocalPreference()": "localPreference",
-			"c.Component()":       "component",
-		}},
-	{File: "Prio", Recv: "CandidatePair", Func: "priority", Coq: "PairPriority", Ret: "Z",
-		Params: []param{{"hasPriorityOverride", "bool"}, {"priorityOverride", "Z"}, {"iceRoleControlling", "bool"}, {"localPrio", "Z"}, {"remotePrio", "Z"}},
-		Access: map[string]string{
-			"p.hasPriorityOverride": "hasPriorityOverride",
-			"p.priorityOverride":    "priorityOverride",
-			"p.iceRoleControlling":  "iceRoleControlling",
-			"p.Local.Priority()":    "localPrio",
-			"p.Remote.Priority()":   "remotePrio",
-		}},
-	{File: "Lifecycle", Recv: "Agent", Func: "connectionStateForDisconnection", Coq: "connectionStateForDisconnection", Ret: "Z",
-		Params: []param{{"disconnectedTimeout", "Z"}, {"connectionState", "Z"}, {"disconnectedTime", "Z"}, {"totalTimeToFailure", "Z"}},
-		Access: map[string]string{
-			"a.disconnectedTimeout": "disconnectedTimeout",
-			"a.connectionState":     "connectionState",
-			"disconnectedTime":      "disconnectedTime",
-			"totalTimeToFailure":    "totalTimeToFailure",
-		}},
-	{File: "Lifecycle", Recv: "Agent", Func: "initialCheckingTimeout", Coq: "initialCheckingTimeout", Ret: "Z",
-		Params: []param{{"failedTimeout", "Z"}, {"disconnectedTimeout", "Z"}, {"lite", "bool"}, {"disconnectedTimeoutExplicit", "bool"}},
-		Access: map[string]string{
-			"a.failedTimeout":               "failedTimeout",
-			"a.disconnectedTimeout":         "disconnectedTimeout",
-			"a.lite":                        "lite",
-			"a.disconnectedTimeoutExplicit": "disconnectedTimeoutExplicit",
-		}},
-	{File: "Lifecycle", Recv: "", Func: "canHandleInbound", Coq: "canHandleInbound", Ret: "bool",
-		Params: []param{{"method", "Z"}, {"class", "Z"}},
-		Access: map[string]string{
-			"msg.Type.Method": "method",
-			"msg.Type.Class":  "class",
-		}},
-	{File: "Lifecycle", Recv: "Agent", Func: "needsToCheckPriorityOnNominated", Coq: "needsToCheckPriorityOnNominated", Ret: "bool",
-		Params: []param{{"lite", "bool"}, {"enableUseCandidateCheckPriority", "bool"}},
-		Access: map[string]string{
-			"a.lite":                            "lite",
-			"a.enableUseCandidateCheckPriority": "enableUseCandidateCheckPriority",
-		}},
-	{File: "Lifecycle", Recv: "controlledSelector", Func: "shouldSwitchSelectedPair", Coq: "shouldSwitchSelectedPair", Ret: "bool",
-		Params: []param{{"has_selected", "bool"}, {"same_pair", "bool"}, {"has_nomination_value", "bool"}, {"needs_priority_check", "bool"}, {"selectedPrio", "Z"}, {"pairPrio", "Z"}},
-		Access: map[string]string{
-			"selectedPair == nil":                         "(negb has_selected)",
-			"selectedPair == pair":                        "same_pair",
-			"nominationValue != nil":                      "has_nomination_value",
-			"s.agent.needsToCheckPriorityOnNominated()":   "needs_priority_check",
-			"selectedPair.priority()":                     "selectedPrio",
-			"pair.priority()":                             "pairPrio",
-		}},
-	{File: "RewriteFns", Recv: "", Func: "catchAllSpecificity", Coq: "catchAllSpecificity", Ret: "Z",
-		Params: []param{{"rule_iface_nonempty", "bool"}, {"rule_has_cidr", "bool"}, {"lookup_iface_empty", "bool"}},
-		Access: map[string]string{
-			"rule.rule.Iface != \"\"": "rule_iface_nonempty",
-			"rule.cidr != nil":        "rule_has_cidr",
-			"iface == \"\"":           "lookup_iface_empty",
-		}},
-	{File: "RewriteFns", Recv: "", Func: "defaultAddressRewriteMode", Coq: "defaultAddressRewriteMode", Ret: "Z",
-		Params: []param{{"candidateType", "Z"}}, Access: map[string]string{"candidateType": "candidateType"}},
-}
+var targets []target
 
 // Constants exported to Gen/Consts.v (package-level constants of pion/ice, by name).
 var constNames = []string{
